@@ -690,6 +690,34 @@ class Analysis:
         if rng is None:
             new_paths = {}
             new_sym = {}
+            if rv["r"] == "bin" and rv["op"].endswith("WithOverflow"):
+                # checked arithmetic pair (value, overflowed)
+                tt = self.v.local_ty(l)
+                etn = tt["ts"][0]["n"] if (tt.get("k") == "tuple" and tt["ts"] and tt["ts"][0].get("k") == "prim") else None
+                erng = ty_range(etn) if etn else None
+                a, _ = self.eval_operand(st, rv["a"])
+                b, _ = self.eval_operand(st, rv["b"])
+                if erng is not None and a is not None and b is not None:
+                    op = rv["op"][:-len("WithOverflow")]
+                    if op == "Add":
+                        ex = (a[0] + b[0], a[1] + b[1])
+                    elif op == "Sub":
+                        ex = (a[0] - b[1], a[1] - b[0])
+                    elif op == "Mul":
+                        c = [a[0] * b[0], a[0] * b[1], a[1] * b[0], a[1] * b[1]]
+                        ex = (min(c), max(c))
+                    else:
+                        ex = None
+                    if ex is not None and ex[0] >= erng[0] and ex[1] <= erng[1]:
+                        new_paths[(("f", 0),)] = ex
+                        new_paths[(("f", 1),)] = (0, 0)
+                    else:
+                        new_paths[(("f", 0),)] = erng
+                        new_paths[(("f", 1),)] = (0, 1)
+                self.kill_local(st, l)
+                for p_, v_ in new_paths.items():
+                    st.iv[("pl", l, p_)] = v_
+                return
             if rv["r"] == "agg" and rv.get("kind") in ("tuple", "adt"):
                 pre = (("dc", rv["vidx"]),) if (rv.get("kind") == "adt" and self._is_enum(rv["def"])) else ()
                 if pre:
